@@ -75,3 +75,18 @@ void beltBlockDecr(octet block[16], const u32 key[8])
 {
 	st_oct(block, uf_d(ld_oct(block), ld_key(key)));
 }
+
+/* beltPolyMul (GF(2^128) multiplication, belt_lcl.c): in the chunking / round-trip groups both
+   sides of every equality call it on equal arguments, so it is abstracted to a deterministic
+   uninterpreted function of its two operands that writes only c.  (Its value is the subject
+   of group C01/polymul.) */
+bv128 __CPROVER_uninterpreted_beltPolyMul(bv128, bv128);
+void beltPolyMul(word c[], const word a[], const word b[], void* stack)
+{
+	bv128 x = 0, y = 0, z;
+	int i;
+	(void)stack;
+	for (i = (int)(128 / B_PER_W) - 1; i >= 0; --i) x = (x << B_PER_W) | a[i], y = (y << B_PER_W) | b[i];
+	z = __CPROVER_uninterpreted_beltPolyMul(x, y);
+	for (i = 0; i < (int)(128 / B_PER_W); ++i) c[i] = (word)(z >> (B_PER_W * i));
+}
